@@ -178,6 +178,7 @@ theorem reach_processPacket (s : State) (p : Pkt) : Reach s (processPacket s p).
   · rename_i hn
     split
     · exact .refl s
+    · exact .refl s
     · exact reach_reportFatal s _
     · exact .snoc (.one (.alive s hn)) (.collect _ _ (by simpa [aAlive] using hn))
     · exact .snoc (.one (.alive s hn)) (.discRespArr _ (by simpa [aAlive] using hn))
@@ -214,6 +215,9 @@ theorem reach_feed : ∀ (pkts : List Pkt) (s : State), Reach s (feed s pkts) :=
     intro s
     cases p
     case garbage =>
+      simp only [feed]
+      exact .snoc ((Reach.one (.readyFail _ s)).trans (reach_reportFatal _ _)) (.trClose _)
+    case wrongName =>
       simp only [feed]
       exact .snoc ((Reach.one (.readyFail _ s)).trans (reach_reportFatal _ _)) (.trClose _)
     all_goals (simp only [feed]; exact reach_feed_step s _ ps ih)
